@@ -1167,7 +1167,7 @@ func Run(id string) core.CheckFunc {
 			return out, err
 		}
 		parts := map[string]func(*core.Ctx, string) ([]core.Violation, map[string]any, error){"typed_corpus_exchange": e.checkTyped}
-		if id != "C01" {
+		if id != "C01" && os.Getenv("VERIF_TYPED_ONLY") == "" {
 			parts["corpus_driver"] = e.checkCorpus
 		}
 		for _, name := range []string{"corpus_driver", "typed_corpus_exchange"} {
@@ -1208,6 +1208,9 @@ func (e *Engine) check(c *core.Ctx, sp spec) (*core.Outcome, error) {
 			n = sp.nThor[mi]
 		}
 		n = scaled(n)
+		if os.Getenv("VERIF_TYPED_ONLY") != "" {
+			n = 10 // development knob: only the typed corpus exchange is of interest
+		}
 		for i := 0; i < n; i++ {
 			sc := sampleScenario(rng, m, i, c.Tier == "thorough")
 			scs = append(scs, sc)
